@@ -49,6 +49,22 @@ Theorem C12_messages_once_in_order :
     msgs_of (proj a (t_disp (run cfg (init t0) hist))) = flat_map (delivered a) (executed cfg (init t0) hist).
 Proof. exact thm_messages_once_in_order. Qed.
 
+(* handlers are optional (an event whose handler is not installed is not handed to the pool): whatever the connect and
+   disconnect handlers, with a message handler installed the messages handed to the pool for `a` are still exactly the
+   messages delivered, in order; and with all three installed nothing is left out. *)
+Theorem C12_messages_with_optional_handlers :
+  forall (cfg : config) (t0 : N) (hist : list inputs) (a : addr),
+    wf_histb cfg (init t0) hist = true ->
+    t_status (run cfg (init t0) hist) <> Stuck ->
+    has_message cfg = true ->
+    msgs_of (proj a (dispatched cfg (t_disp (run cfg (init t0) hist)))) = flat_map (delivered a) (executed cfg (init t0) hist).
+Proof. exact thm_messages_any_handlers. Qed.
+
+Theorem C12_all_handlers_all_dispatched :
+  forall (cfg : config) (ds : list dispatch),
+    has_connect cfg = true -> has_message cfg = true -> has_disconnect cfg = true -> dispatched cfg ds = ds.
+Proof. exact dispatched_all. Qed.
+
 (* disconnect: after a Disconnect for `a` the next event for `a`, if any, is a Connect (a new admission); and every
    admitted stream that is no longer in the table was given exactly one Disconnect:
    #Connect = #Disconnect + (1 if still connected). *)
@@ -157,6 +173,8 @@ Proof. exact demo_run. Qed.
 Print Assumptions C12_sessions.
 Print Assumptions C12_connect_once_first.
 Print Assumptions C12_messages_once_in_order.
+Print Assumptions C12_messages_with_optional_handlers.
+Print Assumptions C12_all_handlers_all_dispatched.
 Print Assumptions C12_disconnect_once_last.
 Print Assumptions C12_unicast_only_addressee_broadcast_each_connected_once.
 Print Assumptions C12_shutdown_returns.
